@@ -1,15 +1,16 @@
 #!/usr/bin/env python3
-"""tools/collect_seeded.py Cxx  - import a sub-agent's deliverables from /tmp/wt/Cxx/_out into /verif/seeded/Cxx-N/"""
+"""tools/collect_seeded.py Cxx [offset]  - import a sub-agent's deliverables from /tmp/wt/Cxx/_out into /verif/seeded/Cxx-N/"""
 import json, os, re, shutil, sys
 V = os.path.dirname(os.path.dirname(os.path.abspath(__file__)))
 pid = sys.argv[1]
+offset = int(sys.argv[2]) if len(sys.argv) > 2 else 0
 src = f"/tmp/wt/{pid}/_out"
 notes = open(os.path.join(src, "notes.md")).read() if os.path.exists(os.path.join(src, "notes.md")) else ""
 for n in (1, 2, 3):
     pf, df = os.path.join(src, f"patch{n}.diff"), os.path.join(src, f"demo{n}.py")
     if not (os.path.exists(pf) and os.path.exists(df)):
         continue
-    sid = f"{pid}-{n}"
+    sid = f"{pid}-{n + offset}"
     d = os.path.join(V, "seeded", sid)
     os.makedirs(d, exist_ok=True)
     shutil.copy(pf, os.path.join(d, "patch.diff"))
